@@ -244,19 +244,31 @@ def random_cfg(rng, n, w, outcomes, inits=None, cyclic=False, p_edge=0.55, calls
 
 
 def nested_cfg(rng, n, w, outcomes):
-    """A configuration whose hard graph contains nested DepGraph nodes (groups of two tasks).  The flat edges in
-    cfg['edges'] are derived here from the documented grafting rule, independently of the implementation's flatten()."""
+    """A configuration whose graphs contain nested DepGraph nodes (groups of 0, 1 or 2 tasks; an empty group only
+    bridges its dependees to its dependencies).  Edges between units are hard or soft: the hard ones go into the hard
+    graph, the soft ones into the soft graph, the same group object being a node of both.  The flat edges in cfg['edges']
+    are derived here from the documented grafting rule (the terminal nodes of a group depend on the group's
+    dependencies, the group's dependees depend on its initial nodes, an empty group is replaced by dependee ->
+    dependency edges), applied to hard + soft for the full graph and to the hard edges alone for the hard graph --
+    independently of the implementation's flatten()."""
     ids = list(range(1, n + 1))
     rng.shuffle(ids)
-    ngroups = 1 if n < 5 or rng.random() < 0.5 else 2
-    groups = [sorted(ids[2 * g:2 * g + 2]) for g in range(ngroups)]
+    ngroups = 1 if n < 4 or rng.random() < 0.4 else 2
+    groups, pos = [], 0
+    for _g in range(ngroups):
+        size = rng.choice([0, 1, 2, 2, 2])
+        groups.append(sorted(ids[pos:pos + size]))
+        pos += size
     grouped = set(x for g in groups for x in g)
-    intra = [[max(g), min(g)] for g in groups if rng.random() < 0.6]          # inside a group: the later task depends on the earlier
+    intra = [[max(g), min(g)] for g in groups if len(g) == 2 and rng.random() < 0.6]   # the later task depends on the earlier
     units = ['g%d' % k for k in range(len(groups))] + ['t%d' % i for i in range(1, n + 1) if i not in grouped]
     unit_order = list(units)
     rng.shuffle(unit_order)                     # node order of the graph (a nested node need not be last)
-    rank = {u: k for k, u in enumerate(sorted(units))}
-    uedges = [[a, b] for a in units for b in units if rank[b] < rank[a] and rng.random() < 0.55]
+    ranked = list(units)
+    rng.shuffle(ranked)
+    rank = {u: k for k, u in enumerate(ranked)}
+    uedges = [[a, b, 'hard' if rng.random() < 0.7 else 'soft'] for a in units for b in units
+              if rank[b] < rank[a] and rng.random() < 0.55]
 
     def members(u):
         return groups[int(u[1:])] if u[0] == 'g' else [int(u[1:])]
@@ -266,19 +278,29 @@ def nested_cfg(rng, n, w, outcomes):
 
     def initial(u):         # nodes of the unit nobody inside it depends on (executed last)
         return [i for i in members(u) if not any(e[1] == i for e in intra if e[0] in members(u))]
-    edges = [[i, j, 'hard'] for i, j in intra]
-    for a, b in uedges:
-        for i in terminal(a):
-            for j in initial(b):
-                edges.append([i, j, 'hard'])
-    # soft edges between tasks, kept acyclic with the hard ones by following the unit ranks
+
+    def flat(pairs):
+        """Task-level edges of the unit-level edges `pairs` once every group is grafted."""
+        pairs = set(map(tuple, pairs))
+        for e in [u for u in units if not members(u)]:
+            ins = [a for a, b in pairs if b == e]
+            outs = [b for a, b in pairs if a == e]
+            pairs = set(p for p in pairs if e not in p) | set((a, b) for a in ins for b in outs)
+        return set((i, j) for a, b in pairs for i in terminal(a) for j in initial(b))
+    flat_hard = flat([(a, b) for a, b, k in uedges if k == 'hard'])
+    flat_full = flat([(a, b) for a, b, _k in uedges])
+    edges = [[i, j, 'hard'] for i, j in intra] + [[i, j, 'hard'] for i, j in sorted(flat_hard)]
+    edges += [[i, j, 'soft'] for i, j in sorted(flat_full - flat_hard)]
+    # soft edges between tasks, kept acyclic with the others by following the unit ranks
     trank = {i: rank[u] for u in units for i in members(u)}
+    tsoft = []
     for i in range(1, n + 1):
         for j in range(1, n + 1):
-            if trank[j] < trank[i] and rng.random() < 0.2 and not any(e[0] == i and e[1] == j for e in edges):
+            if trank[j] < trank[i] and rng.random() < 0.15 and not any(e[0] == i and e[1] == j for e in edges):
                 edges.append([i, j, 'soft'])
+                tsoft.append([i, j])
     return dict(n=n, workers=w, edges=edges, outcome={str(i): rng.choice(outcomes) for i in range(1, n + 1)},
-                nested=dict(groups=groups, intra=intra, uedges=uedges, unit_order=unit_order))
+                nested=dict(groups=groups, intra=intra, uedges=uedges, unit_order=unit_order, tsoft=tsoft))
 
 
 def explore(ctx, cfgs, per_cfg, seed):
@@ -590,6 +612,14 @@ def _common(ctx, invs, mc_runs, witnesses, impl_plan, sim_plan, dfs_plan):
         rng = random.Random(ctx.seed * 7919 + n * 31 + w + 1000 * calls)
         if cyclic == 'nested':
             cfgs = [nested_cfg(rng, n, w, outcomes) for _ in range(ncfg)]
+        elif cyclic == 'prior':
+            # the backend object (and the task objects) served another graph before: see schedrun.execute
+            cfgs = []
+            for _ in range(ncfg):
+                cfg = random_cfg(rng, n, w, outcomes, inits, False, calls=calls)
+                other = random_cfg(rng, n, w, ['ok', 'ok', 'fail'], None, False, p_edge=rng.choice([0.0, 0.3, 0.6]))
+                cfg['prior'] = dict(edges=other['edges'], outcome=other['outcome'])
+                cfgs.append(cfg)
         else:
             cfgs = [random_cfg(rng, n, w, outcomes, inits, cyclic, calls=calls) for _ in range(ncfg)]
         all_groups.setdefault((n, w, calls), []).extend(explore(ctx, cfgs, per, ctx.seed))
@@ -661,7 +691,9 @@ def run_c02(ctx):
                        (4, 3, OUT_ALL, None, False, ctx.pick(20, 100), ctx.pick(10, 25)),
                        (5, 2, OUT_ALL, None, False, ctx.pick(8, 40), ctx.pick(8, 25)),
                        (8, 4, OUT_ALL, None, False, ctx.pick(4, 40), ctx.pick(5, 15)),
-                       (4, 2, OUT_ALL, None, 'nested', ctx.pick(15, 80), ctx.pick(5, 12))],
+                       (4, 2, OUT_ALL, None, 'nested', ctx.pick(15, 80), ctx.pick(5, 12)),
+                       (3, 2, ['ok', 'ok', 'fail', 'raise'], None, 'prior', ctx.pick(20, 100), ctx.pick(4, 10)),
+                       (4, 3, ['ok', 'ok', 'fail', 'none'], None, 'prior', ctx.pick(10, 60), ctx.pick(4, 10))],
             sim_plan=[('c02sim_n3w2', 3, 2, 'MC_DagEmptyMal', ctx.pick(250, 2500), 60)],
             dfs_plan=[(dict(PAIR, outcome={'1': 'badstatus'}), ctx.pick(1500, 40000))] + ([] if q else [(DIAMOND, 15000)]))
     import conf_decide
